@@ -1,4 +1,5 @@
 import GmqttVerif.Model.RedisStores
+import GmqttVerif.Model.RedisHistory
 import Driver.Common
 /-
   Oracle for C09 (redis persistence). Mirror of harness/cmd/drive_redis (modes `cmds`, `stores`) and of the
@@ -502,8 +503,159 @@ def observeWire (ds : Dataset) (q2 : List (Bytes × Nat)) (now : Nat) : String :
       let dups := dupsOf resumed r.unack ((q2.filter (·.1 == r.sess.id)).map (·.2))
       s!"{tok r.sess.id}\{exp={r.sess.expiry};subs=[{String.intercalate "," subs}];conn={if resumed then 1 else 0}/0;rx=[{String.intercalate "," rx}];dup=[{String.intercalate "," dups}]}"))
 
-def stepWire (_ : Unit) (line : String) : Unit × String :=
+/-! ### conformance of the broker's journal with the history model (`HOp.cmds`, the command sequence `crash_consistent` is about)
+
+Every `j <op>` line arrives with the journal segment the real broker produced for it (`JS=`) and the list of history steps it
+amounts to (`EV=`, derived by vlib/props/c09.py from the wire op and the packets the scripted clients saw). The model state is
+advanced with `hstep`; per client the model's commands must equal the journal's (timestamps aside). Payloads the wire does not
+determine (the stored session record, the encoded subscription, the queued element) are taken from the journal command itself. -/
+
+def famOfKey (k : Bytes) : Option (Fam × Bytes) :=
+  if sessPrefix.isPrefixOf k then some (.sess, k.drop 8)
+  else if subPrefix.isPrefixOf k then some (.sub, k.drop 4)
+  else if queuePrefix.isPrefixOf k then some (.queue, k.drop 6)
+  else if unackPrefix.isPrefixOf k then some (.unack, k.drop 6)
+  else none
+
+def decNat? (b : Bytes) : Option Nat := if b.isEmpty then none else decToNatAux b 0
+
+def elemOf? (b : Bytes) : Option Elem := match decodeElem b with | .ok e => some e | .error _ => none
+
+/-- the decoded command a raw redis command stands for (inverse of `DCmd.enc`) -/
+def dcmdOf (c : Cmd) : Option DCmd :=
+  match c with
+  | .del k => (famOfKey k).map (fun p => .delKey p.1 p.2)
+  | .hset k fvs =>
+    match famOfKey k with
+    | some (.sess, c) => some (.setSess c fvs)
+    | some (.sub, c) =>
+      match fvs with
+      | [(f, v)] => match decodeSubscription v with
+        | .ok sub => if fullTopicName sub == f then some (.setSub c sub) else none
+        | .error _ => none
+      | _ => none
+    | some (.unack, c) =>
+      match fvs with
+      | [(f, v)] => if v == [49] then (decNat? f).map (fun id => .setUnack c id) else none
+      | _ => none
+    | _ => none
+  | .hdel k fs =>
+    match famOfKey k with
+    | some (.sub, c) => some (.delSubs c fs)
+    | some (.unack, c) => match fs with
+      | [f] => (decNat? f).map (fun id => .delUnack c id)
+      | _ => none
+    | _ => none
+  | .rpush k v => match famOfKey k with
+    | some (.queue, c) => (elemOf? v).map (fun e => .push c e)
+    | _ => none
+  | .lset k i v => match famOfKey k with
+    | some (.queue, c) => if i < 0 then none else (elemOf? v).map (fun e => .lset c i.toNat e)
+    | _ => none
+  | .lrem k n v => match famOfKey k with
+    | some (.queue, c) => if n == 1 then (elemOf? v).map (fun e => .lrem1 c e) else none
+    | _ => none
+  | _ => none
+
+def canonE (e : Elem) : String :=
+  showElemFull { e with atTime := 0, expiry := if e.expiry == zeroTime then zeroTime else 1 }
+
+def famStr : Fam → String
+  | .sess => "session" | .sub => "sub" | .queue => "queue" | .unack => "unack"
+
+def showD : DCmd → String
+  | .delKey f c => s!"del({famStr f},{esc c})"
+  | .setSess c fvs => s!"setsess({esc c}," ++ String.intercalate "," (fvs.map (fun p => esc p.1 ++ "=" ++ esc p.2)) ++ ")"
+  | .setSub c sub => s!"setsub({esc c},{showSub sub})"
+  | .delSubs c fs => s!"delsubs({esc c}," ++ String.intercalate "," (fs.map esc) ++ ")"
+  | .push c e => s!"push({esc c},{canonE e})"
+  | .lset c i e => s!"lset({esc c},{i},{canonE e})"
+  | .lrem1 c e => s!"lrem({esc c},{canonE e})"
+  | .setUnack c id => s!"setunack({esc c},{id})"
+  | .delUnack c id => s!"delunack({esc c},{id})"
+
+structure WSt where
+  st : HSt := {}
+  ie : Nat := 30
+  broken : Bool := false
+
+/-- first command of the segment (not yet used) that satisfies `p` -/
+def takeFirst (p : DCmd → Bool) : List DCmd → Option (DCmd × List DCmd)
+  | [] => none
+  | d :: ds => if p d then some (d, ds) else (takeFirst p ds).map (fun r => (r.1, d :: r.2))
+
+def fillerIds (used : List Nat) : List Nat := used ++ (List.range (100 - used.length)).map (· + 60001)
+
+/-- one history step from an event token; `pool` = journal commands whose payload has not been claimed yet -/
+def opOfEvent (ev : String) (pool : List DCmd) : Option (HOp × List DCmd) :=
+  match ev.splitOn "|" with
+  | ["con", c, clean] =>
+    let cid := unesc c
+    match takeFirst (fun d => match d with | .setSess c' fvs => c' == cid && fvs.length == 5 | _ => false) pool with
+    | some (.setSess _ fvs, pool') =>
+      match parseSession (sessFields.map (hfind fvs)) with
+      | .ok (some s) => some (.connect cid (clean == "1") s 0, pool')
+      | _ => none
+    | _ => none
+  | ["sub", c] =>
+    let cid := unesc c
+    match takeFirst (fun d => match d with | .setSub c' _ => c' == cid | _ => false) pool with
+    | some (.setSub _ sub, pool') => some (.subscribe cid sub, pool')
+    | _ => none
+  | ["uns", c, t] => some (.unsubscribe (unesc c) (unesc t), pool)
+  | ["enq", c] =>
+    let cid := unesc c
+    match takeFirst (fun d => match d with | .push c' _ => c' == cid | _ => false) pool with
+    | some (.push _ e, pool') => some (.enqueue cid e, pool')
+    | _ => none
+  | ["dlv", c, ids] => some (.deliver (unesc c) (fillerIds (if ids == "-" then [] else (ids.splitOn "+").map natOf)) 0, pool)
+  | ["ack", c, id] => some (.ack (unesc c) (natOf id), pool)
+  | ["rec", c, id] => some (.pubrec (unesc c) (natOf id) 0, pool)
+  | ["rq2", c, id] => some (.recvQos2 (unesc c) (natOf id), pool)
+  | ["rel", c, id] => some (.pubrel (unesc c) (natOf id), pool)
+  | ["exp", c, n] => some (.setExpiry (unesc c) (natOf n), pool)
+  | ["trm", c] => some (.terminate (unesc c), pool)
+  | _ => none
+
+def runEvents (ie : Nat) : List String → HSt → List DCmd → List DCmd → Option (HSt × List DCmd)
+  | [], st, _, acc => some (st, acc)
+  | ev :: evs, st, pool, acc =>
+    match opOfEvent ev pool with
+    | none => none
+    | some (op, pool') => runEvents ie evs (hstep ie st op) pool' (acc ++ op.cmds ie st)
+
+def cidsOf (ds : List DCmd) : List Bytes := (ds.map DCmd.cid).eraseDups
+
+def conform (w : WSt) (js ev : String) : WSt × String :=
+  if ev == "skip" then ({ w with broken := true }, "seg=skip")
+  else if w.broken then (w, "seg=skip")
+  else
+    let raw := (if js == "" then [] else js.splitOn ";").map parseJournalCmd
+    if raw.any Option.isNone then ({ w with broken := true }, "seg=DIFF:unparsed")
+    else
+      let real := (raw.filterMap id).map dcmdOf
+      if real.any Option.isNone then ({ w with broken := true }, "seg=DIFF:not-a-store-command")
+      else
+        let real := real.filterMap id
+        match runEvents w.ie (if ev == "" then [] else ev.splitOn ";") w.st real [] with
+        | none => ({ w with broken := true }, "seg=DIFF:no-such-step")
+        | some (st', model) =>
+          let bad := (cidsOf (real ++ model)).filter (fun c =>
+            (real.filter (·.cid == c)).map showD != (model.filter (·.cid == c)).map showD)
+          match bad with
+          | [] => ({ w with st := st' }, "seg=ok")
+          | c :: _ =>
+            ({ w with broken := true },
+             s!"seg=DIFF:{esc c}:model=[{String.intercalate ";" ((model.filter (·.cid == c)).map showD)}]:real=[{String.intercalate ";" ((real.filter (·.cid == c)).map showD)}]")
+
+def stepWire (w : WSt) (line : String) : WSt × String :=
   match words line with
+  | "new" :: _ => ({}, "-")
+  | "j" :: rest =>
+    let (_, m) := kvOf rest
+    match look m "EV" with
+    | none => (w, "-")
+    | some ev => conform w ((look m "JS").getD "") ev
   | "crashscan" :: rest =>
     let (_, m) := kvOf rest
     let jh := (look m "JH").getD ""
@@ -516,8 +668,8 @@ def stepWire (_ : Unit) (line : String) : Unit × String :=
     let step := max 1 (lookNat m "step" 1)
     let now := lookNat m "now" 0
     let ks := (List.range (cmds.length + 1)).filter (· % step == 0)
-    ((), String.intercalate " " (s!"W={cmds.length}" :: ks.map (fun k => s!"k{k}\{{observeWire (applyAll [] (cmds.take k)) q2 now}}")))
-  | _ => ((), "-")
+    (w, String.intercalate " " (s!"W={cmds.length}" :: ks.map (fun k => s!"k{k}\{{observeWire (applyAll [] (cmds.take k)) q2 now}}")))
+  | _ => (w, "-")
 
 end Driver.Redis
 
@@ -526,5 +678,5 @@ def main (args : List String) : IO Unit := do
   let o ← IO.getStdout
   match args with
   | ["cmds"] => Driver.loop i o ([] : GmqttVerif.Redis.Dataset) Driver.Redis.stepCmds
-  | ["wire"] => Driver.loop i o () Driver.Redis.stepWire
+  | ["wire"] => Driver.loop i o ({} : Driver.Redis.WSt) Driver.Redis.stepWire
   | _ => Driver.loop i o ({} : Driver.Redis.St) Driver.Redis.stepStores
